@@ -2,7 +2,7 @@
    A purely functional content model cannot say "the result shares an array with the receiver".
    Here every table is five-plus-two abstract locations and every operation is a hand-written
    effect signature (a list of allocation / aliasing / write events in program order) read off
-   biom/table.py, biom/_filter.pyx, biom/_transform.pyx, biom/_subsample.pyx (HEAD d903d2ff).
+   biom/table.py, biom/_filter.pyx, biom/_transform.pyx, biom/_subsample.pyx (HEAD 16e406b1).
    The signatures are an abstraction of CPython object identity; they are tied to the code by the
    C07 correspondence run (np.shares_memory / `is` on the real objects), not by proof. *)
 From Coq Require Import List Arith Bool.
@@ -87,7 +87,7 @@ Definition share_all (t t' : tbl) (cs : list comp) : list effect := map (fun c =
 (* the constructor (table.py __init__ + _cast_metadata): the matrix goes through astype(float), a
    copy; every metadata dict is re-created as a defaultdict with d.update(item), a SHALLOW copy:
    new dict objects that hold the same value objects *)
-Definition ctor_md (dst src : tbl) (a : axis) (k : mdk) : list effect :=
+Definition cast_md_eff (dst src : tbl) (a : axis) (k : mdk) : list effect :=
   (if present k then [Fresh (dst, DictC a)] else []) ++
   (if nested k then [Share (dst, ValC a) (src, ValC a)] else []).
 
@@ -101,18 +101,19 @@ Definition get_sparse (src : loc) (cur : lay) (a : axis) (dst : tbl) : list effe
 
 (* one Table.filter on table [T] whose matrix is the object [srcM] in layout [cur] (table.py filter,
    _filter.pyx _filter/_remove_rows_csr): the kernel compacts the arrays of the matrix it is handed
-   in place; the ids of the axis become a new array, the metadata tuple is rebuilt from the SAME
-   dict objects; T._data / ids / metadata are re-assigned *)
+   in place; the ids of the axis become a new array, the metadata tuple is rebuilt; T._data / ids /
+   metadata are re-assigned; then (repair 16e406b1) _cast_metadata re-creates the dict objects of
+   BOTH axes (new dicts, same values) *)
 Definition filter_step (T : tbl) (srcM : loc) (cur : lay) (a : axis) (W : tbl) : list effect :=
   get_sparse srcM cur a W ++
-  [Canon (W, M); Write (W, M); Assign T M; Assign T (IdC a); Assign T (DictC a); Reformat T (need a)].
+  [Canon (W, M); Write (W, M); Assign T M; Assign T (IdC a); Assign T DictO; Assign T DictS; Reformat T (need a)].
 
 (* ... and what the filtered table T then consists of *)
 Definition filtered_table (T : tbl) (W : tbl) (fresh_ids : list axis) (mo ms : mdk) : list effect :=
   [Share (Res, M) (W, M)] ++
   map (fun a => if existsb (fun b => match a, b with Obs, Obs | Samp, Samp => true | _, _ => false end) fresh_ids
                 then Fresh (Res, IdC a) else Share (Res, IdC a) (T, IdC a)) [Obs; Samp] ++
-  share_all Res T (md_comps mo ms).
+  cast_md_eff Res T Obs mo ++ cast_md_eff Res T Samp ms.
 
 (* Table.transform (table.py transform, _transform.pyx): the kernel overwrites data[start:end] of the
    matrix it is handed; ids and metadata are not touched *)
@@ -127,7 +128,7 @@ Definition transform_eff (T : tbl) (cur : lay) (a : axis) (mo ms : mdk) : list e
 Definition sort_order_eff (src dst : tbl) (a : axis) (order_src : option loc) (mo ms : mdk) : list effect :=
   [Fresh (dst, M); Share (dst, IdC (other a)) (src, IdC (other a));
    match order_src with Some l => Share (dst, IdC a) l | None => Fresh (dst, IdC a) end] ++
-  ctor_md dst src Obs mo ++ ctor_md dst src Samp ms.
+  cast_md_eff dst src Obs mo ++ cast_md_eff dst src Samp ms.
 
 (* ---- the effect signature ---- *)
 Definition eff (o : opk) (lk : lay) (fl : flags) : list effect :=
@@ -175,7 +176,7 @@ Definition eff (o : opk) (lk : lay) (fl : flags) : list effect :=
       (* copy; kernel on the copy's matrix in the axis layout; filter on the axis, then on the other *)
       copy_eff Copy mo ms ++ get_sparse (Copy, M) CSR a Work ++ [Write (Work, M); Canon (Work, M); Assign Copy M] ++
       (* filter along the axis: the matrix already is in that layout, the kernel gets the same object *)
-      [Canon (Work, M); Write (Work, M); Assign Copy M; Assign Copy (IdC a); Assign Copy (DictC a)] ++
+      [Canon (Work, M); Write (Work, M); Assign Copy M; Assign Copy (IdC a); Assign Copy DictO; Assign Copy DictS] ++
       filter_step Copy (Work, M) (need a) (other a) Work2 ++
       filtered_table Copy Work2 [Obs; Samp] mo ms
   | OPartition =>
@@ -183,13 +184,13 @@ Definition eff (o : opk) (lk : lay) (fl : flags) : list effect :=
          self._data); each part: new matrix, new id array on the axis, ids[:] view on the other axis,
          metadata through the constructor *)
       [Reformat Recv (need a); Fresh (Res, M); Fresh (Res, IdC a); Share (Res, IdC (other a)) (Recv, IdC (other a))] ++
-      ctor_md Res Recv Obs mo ++ ctor_md Res Recv Samp ms
+      cast_md_eff Res Recv Obs mo ++ cast_md_eff Res Recv Samp ms
   | OCollapse =>
       (* partition, then one vector per group; the collapsed axis gets new ids and new metadata
          (collapsed_ids lists), the other axis ids[:] and its metadata through the constructor *)
       [Reformat Recv (need a); Fresh (Res, M); Fresh (Res, IdC a); Share (Res, IdC (other a)) (Recv, IdC (other a));
        Fresh (Res, DictC a); Fresh (Res, ValC a)] ++
-      ctor_md Res Recv (other a) (mdk_of (other a) mo ms)
+      cast_md_eff Res Recv (other a) (mdk_of (other a) mo ms)
   | OMerge =>
       let amo := f_amdo fl in let ams := f_amds fl in
       if negb (present mo) && negb (present ms) && negb (present amo) && negb (present ams)
@@ -227,8 +228,8 @@ Definition eff (o : opk) (lk : lay) (fl : flags) : list effect :=
       let k := mdk_of a mo ms in
       (if present k then [Write (Recv, DictC a)] else []) ++ [Assign Recv DictO; Assign Recv DictS] ++
       share_all Res Recv [M; IdO; IdS] ++
-      ctor_md Res Recv a (if present k then k else MdFlat) ++
-      ctor_md Res Recv (other a) (mdk_of (other a) mo ms)
+      cast_md_eff Res Recv a (if present k then k else MdFlat) ++
+      cast_md_eff Res Recv (other a) (mdk_of (other a) mo ms)
   | ODelMetadata =>
       (* del md[k] inside the existing dicts of the axis / of both axes (keys given, not all of them) *)
       (match f_axis fl with
